@@ -3,9 +3,12 @@ package pauditd
 import (
 	"context"
 	"fmt"
+	"github.com/metal-toolbox/auditevent"
+	"io"
 	"strings"
 	"testing"
 	"testing/synctest"
+	"time"
 
 	"github.com/prometheus/client_golang/prometheus"
 
@@ -63,7 +66,10 @@ func runC10b(t *testing.T, run *mc.Run) int {
 			r := startRead(0)
 			defer r.stop()
 			mp := metrics.NewPrometheusMetricsProviderForRegisterer(prometheus.NewRegistry())
-			proc := sshd.NewSshdProcessor(r.ctx, r.logins, "node", "mid", r.ew, mp)
+			// the sshd side writes through a writer that first lets everybody else run to quiescence (a sleep on the
+			// bubble's virtual clock returns only when all other goroutines are durably blocked): if the login was
+			// handed over before this write, the audit side gets to write that session's actions first - every time
+			proc := sshd.NewSshdProcessor(r.ctx, r.logins, "node", "mid", auditevent.NewDefaultAuditEventWriter(yieldingWriter{r.w}), mp)
 			seq := 7000
 			for _, e := range order {
 				seq++
@@ -76,6 +82,9 @@ func runC10b(t *testing.T, run *mc.Run) int {
 						done = true
 					}()
 					synctest.Wait()
+					if !done {
+						vsleep(5 * time.Millisecond) // (it may be inside the yielding writer)
+					}
 					if !done {
 						msg = "the sshd processor is blocked handing over the login although the audit processor is idle"
 						return
@@ -145,3 +154,11 @@ func runC10b(t *testing.T, run *mc.Run) int {
 }
 
 var _ = context.Background
+
+// yieldingWriter delays each write until every other goroutine of the bubble is durably blocked.
+type yieldingWriter struct{ w io.Writer }
+
+func (y yieldingWriter) Write(p []byte) (int, error) {
+	time.Sleep(time.Millisecond)
+	return y.w.Write(p)
+}
